@@ -137,3 +137,28 @@ def link_sources(parsed):
         if base_name(b["rule"]) == "LINK" and b["outs"]:
             out[b["outs"][0]] = [prod.get(i, ("?", i)) for i in b["inputs"]]
     return out
+
+
+def download_order(parsed, files, build_dir="build"):
+    """C19, downloads: a compiled source that lies inside the download directory of a downloading module is itself the
+    output of a phony statement that waits for a tag file of that directory (so ninja does not look for it before the
+    download ran).  Directories are compared by path component."""
+    dirs, _ = download_dirs(files, build_dir)
+    bad = []
+    producers = {}
+    for b in parsed["builds"]:
+        for o in b["outs"]: producers.setdefault(o, []).append(b)
+    def inside(p, d):
+        pc, dc = norm(p).split("/"), d.split("/")
+        return pc[:len(dc)] == dc
+    for b in compile_stmts(parsed):
+        src = b["inputs"][0]
+        ds = [d for d in dirs if inside(src, d)]
+        if not ds: continue
+        ok = False
+        for pb in producers.get(src, []):
+            waits = [norm(x) for x in pb["inputs"] + pb["deps"]]
+            if pb["rule"] == "phony" and any(w in (d + "/.laze-downloaded", d + "/.laze-patched") for w in waits for d in ds):
+                ok = True
+        if not ok: bad.append(("downloaded-source-not-ordered-after-download", src, ds))
+    return bad
